@@ -6,6 +6,7 @@ from __future__ import annotations
 
 import ast
 import itertools
+from typing import Iterable  # noqa: F401
 
 from hypothesis import strategies as st
 
@@ -32,10 +33,14 @@ ASSUMPTIONS = [
     "with exactly one positional argument (they are typed functions: C07 territory); string indices into tuple literals "
     "are not generated.",
     "Callables are rendered one per line in a synthetic module registered in linecache (C03 covers layouts).",
+    "Each case may be preceded (in the same process) by 0-3 unrelated typed queries whose lambda parameters carry the names "
+    "that the untyped lambda uses as free variables: process-level history must not matter.",
 ]
 BUDGET = {"quick": (6, 1200), "thorough": (16, 10000)}
 EXHAUSTIVE_SHARDS = {"quick": 4, "thorough": 16}
 EXHAUSTIVE_NOTE = "reduced pool (3 attrs, 4 constants, 33 forms): every expression of depth <=1 (quick) or <=2 (thorough), x Select/SelectMany/Where, string form"
+
+FREE_NAMES = ["name", "value", "cut", "jets"]
 
 _CFG = untyped.Cfg(
     const_kinds="iifssbycNE"[:8] + "NE",
@@ -54,7 +59,7 @@ def _body(draw, depth, p):
 def _expr(draw, depth, bound):
     """untyped.expr plus the C10-specific forms"""
     if depth > 0:
-        k = {0: 0, 1: 0, 2: 1, 3: 1, 4: 2, 5: 3, 6: 4, 7: 5}.get(draw(st.integers(0, 17)), 99)
+        k = {0: 0, 1: 0, 2: 1, 3: 1, 4: 2, 5: 3, 6: 4, 7: 5, 8: 6, 9: 6}.get(draw(st.integers(0, 19)), 99)
         d = depth - 1
         if k == 0:  # subscript of a tuple literal: constant in range / out of range / variable / negative / slice
             n = draw(st.integers(1, 3))
@@ -82,6 +87,9 @@ def _expr(draw, depth, bound):
             return f"{callee}({', '.join(args)})"
         if k == 4:
             return f"{draw(st.sampled_from(['abs', 'len']))}({draw(_expr(d, bound))})"
+        if k == 6:  # free (unbound) names: nothing is known about them on an untyped stream
+            fn = draw(st.sampled_from(FREE_NAMES))
+            return draw(st.sampled_from([fn, f"{fn}.pt", f"{fn}.encode()", f"{fn}.aa", f"{fn}.split()", f"f({fn})", f"{fn}[0]"]))
         if k == 5:  # ifexp with constants (exact predictions)
             a, b = draw(st.sampled_from([("1", "2"), ("1.5", "2"), ("'a'", "'b'"), ("'a'", "1"), ("True", "False"), ("1", "'x'"), ("b'a'", "b'b'")]))
             return f"({a} if {draw(_expr(d, bound))} else {b})"
@@ -111,7 +119,9 @@ def _case(draw, maxdepth):
         else:
             body = f"({draw(_expr(1, [p]))} == 1) or ({body} in {p}.x)"
     form = draw(st.sampled_from(["string", "string", "ast", "callable", "callable"]))
-    return {"op": op, "param": p, "body": body, "form": form}
+    # history: typed queries built earlier in the same process, binding the free names as lambda parameters
+    prelude = draw(st.lists(st.tuples(st.sampled_from(FREE_NAMES + [p]), st.sampled_from(["str", "dict", "class"])).map(list), max_size=3))
+    return {"op": op, "param": p, "body": body, "form": form, "prelude": prelude}
 
 
 def strategy(tier):
@@ -166,6 +176,14 @@ def exhaustive(tier):
 
 # ------------------------------------------------------------------------------------------------
 # designed-refusal classifier (written from the statement)
+
+
+class _Typed:
+    def pt(self, scale: float = 1.0, name: str = "x") -> float: ...
+
+    def jets(self, name: str = "j") -> "Iterable[_Typed]": ...
+
+    def encode(self, enc: str = "utf-8") -> str: ...
 
 
 def _contains(node, kinds):
@@ -232,6 +250,22 @@ def check(case) -> Result:
     r.labels.append("op:" + op)
     for t in sorted(trig):
         r.labels.append("trigger:" + t)
+
+    # earlier, unrelated, *typed* queries in the same process must not influence an untyped one
+    for pname, kind in case.get("prelude", []):
+        r.labels.append("history:typed-query-before")
+        try:
+            if kind == "str":
+                base = DS().Select("lambda e: 'jet'")
+                base.Select(f"lambda {pname}: {pname}.upper()"), base.SelectMany(f"lambda {pname}: {pname}.upper()"), base.Where(f"lambda {pname}: {pname} == 'a'")
+            elif kind == "dict":
+                base = DS().Select("lambda e: {'aa': e.x, 'bb': 1}")
+                base.Select(f"lambda {pname}: {pname}.aa"), base.SelectMany(f"lambda {pname}: {pname}.aa"), base.Where(f"lambda {pname}: {pname}.bb > 0")
+            else:
+                base = DS(_Typed)
+                base.Select(f"lambda {pname}: {pname}.pt()"), base.SelectMany(f"lambda {pname}: {pname}.jets()"), base.Where(f"lambda {pname}: {pname}.pt() > 0")
+        except Exception as e:
+            raise AssertionError(f"harness: prelude query failed: {type(e).__name__}: {e}")
 
     ds = DS()
     try:
